@@ -180,7 +180,20 @@ class TickReference:
 
 # -------------------------------------------------------------------- C++
 
-MAX_DTS = [1e-3, 0.01, 0.05, 0.1, 0.3, 0.5, 1.0]
+MAX_DTS = [1e-3, 0.01, 0.05, 0.1, 0.3, 0.5, 1.0, 0.05000000074505806, 0.10000000149011612, 2.0]
+# how the hand-written Impl declares Tag::max_dt_sec: the header only requires a positive constant, so a
+# single-precision or an integer constant is as valid as a double (the last three entries above are the
+# double values of 0.05f, 0.1f and 2)
+MAX_DT_CTYPES = ["double"] * 7 + ["float", "float", "int"]
+
+
+def _ctype(i, max_dts):
+    return MAX_DT_CTYPES[i] if max_dts is MAX_DTS else "double"
+
+
+def _clit(i, md, max_dts):
+    t = _ctype(i, max_dts)
+    return f"{md!r}f" if t == "float" else (str(int(md)) if t == "int" else repr(md))
 
 
 def rec_impl_source(has_cal: bool, has_ctl: bool, max_dts=MAX_DTS):
@@ -213,7 +226,7 @@ def rec_impl_source(has_cal: bool, has_ctl: bool, max_dts=MAX_DTS):
         A(f"struct Reading{i};")
         A(f"struct Rec{i} {{")
         A(f"  struct Tag {{ using StateAndVarianceT = SV; using CalibrationT = {cal_t}; using ControlT = {ctl_t};"
-          f" using StampedReadingBaseT = Base{i}; static constexpr double max_dt_sec = {md!r}; }};")
+          f" using StampedReadingBaseT = Base{i}; static constexpr {_ctype(i, max_dts)} max_dt_sec = {_clit(i, md, max_dts)}; }};")
         A(f"  SV process_model(double dt, const SV& s{cal_p}{ctl_p}) const {{ SV r = s; if (!r.log.empty() && r.log.back().kind == 'p' && r.log.back().dt == dt && r.log.back().a == {ctl_v} && r.log.back().cal == {cal_v}) r.log.back().rep++; else r.log.push_back(Ev{{'p', dt, {ctl_v}, 0, {cal_v}, 1}}); return r; }}")
         A(f"  template <typename ReadingT> SV sensor_model(const SV& s{cal_p}, const ReadingT& rdg) const {{ SV r = s; r.log.push_back(Ev{{'s', 0.0, rdg.sensor, rdg.payload, {cal_v}, 1}}); return r; }}")
         A("};")
